@@ -2156,7 +2156,25 @@ class Evaluator:
                                 fields[st.target.id] = Tup([], lit="list")
                             elif fac.id in self.model.classes:
                                 fields[st.target.id] = Obj(fac.id, {})
-        return Obj(cls.name, fields)
+        obj = Obj(cls.name, fields)
+        post = self.model.find_method(cls, "__post_init__") if cls.is_dataclass else None
+        if post is not None:
+            # the generated __init__ calls __post_init__(self): what it stores into the fields IS the constructed value
+            for st in cls.node.body:
+                if isinstance(st, ast.AnnAssign) and isinstance(st.target, ast.Name) and st.target.id not in obj.fields and st.value is not None \
+                        and not (isinstance(st.value, ast.Call) and ast.unparse(st.value.func).split(".")[-1] == "field"):
+                    dv = self.ev(st.value, {}, ctx)
+                    if len(dv) == 1 and not dv[0][0]:
+                        obj.fields[st.target.id] = dv[0][1]
+            sub = Ctx(post, ctx.depth + 1, cls)
+            outs = [o for o in self.exec_block(post.node.body, [(frozenset(), {post.params[0]: obj}, None)], sub) if not isinstance(o[2], Raise)]
+            if len(outs) != 1 or outs[0][0]:
+                raise Unreadable(f"{cls.name}.__post_init__ distinguishes cases")
+            res_obj = outs[0][1].get(post.params[0])
+            if not isinstance(res_obj, Obj):
+                raise Unreadable(f"{cls.name}.__post_init__ result")
+            return res_obj
+        return obj
 
     def inline_alts(self, f: FuncInfo, selfv, selfcls, pos, kw, ctx, node):
         params = f.params[1:] if (f.is_method or f.is_classmethod) else list(f.params)
